@@ -78,6 +78,36 @@ func runC02(c *engine.Ctx) {
 				w.features["env_block_rename_collision"] = true
 			}
 		}
+		// (d) values that only become what they are through interpolation: a skip reason, a matrix value and an env
+		// value that expand to text reading like a boolean, a number, null or nothing at all
+		if p.Draw(2, "interp:typed-looking") == 1 {
+			refs := []string{"${B_TRUE}", "${B_FALSE}", "${N_NUM}", "${N_NULL}", "${EMPTY}", "x${EMPTY}"}
+			forEachCommandNode(docSteps(doc), func(n *gen.Node) {
+				if p.Draw(2, "interp:typed-here") == 0 {
+					return
+				}
+				if m := n.Get("matrix"); m != nil && m.Kind == gen.KMap {
+					if adj := m.Get("adjustments"); adj != nil && adj.Kind == gen.KSeq {
+						for _, a := range adj.Seq {
+							if a.Kind == gen.KMap && !a.Has("skip") {
+								a.Set("skip", gen.Str(refs[p.Draw(len(refs), "interp:typed-skip")]))
+							}
+						}
+					}
+				}
+				if e := n.Get("env"); e != nil && e.Kind == gen.KMap && !e.Has("TYPED_LOOKING") {
+					e.Set("TYPED_LOOKING", gen.Str(refs[p.Draw(len(refs), "interp:typed-env")]))
+				}
+				if pls := n.Get("plugins"); pls != nil && pls.Kind == gen.KSeq {
+					for _, e := range pls.Seq {
+						if e.Kind == gen.KMap && len(e.Keys) == 1 && e.Vals[0].Kind == gen.KMap {
+							e.Vals[0].Set("typed_looking", gen.Str(refs[p.Draw(len(refs), "interp:typed-cfg")]))
+						}
+					}
+				}
+				w.features["interpolated_values_that_read_like_other_types"] = true
+			})
+		}
 		// (c) empty lists inside untyped signed values (plugin configs, adjustment extras)
 		if p.Draw(2, "interp:emptylists") == 1 {
 			forEachCommandNode(docSteps(doc), func(n *gen.Node) {
@@ -121,6 +151,11 @@ func runC02(c *engine.Ctx) {
 		env := newEnvNode(false, nil)
 		env.Set("FOO", "foo value")
 		env.Set("T_NAME", "TARGET_VAR")
+		env.Set("B_TRUE", "true")
+		env.Set("B_FALSE", "false")
+		env.Set("N_NUM", "017")
+		env.Set("N_NULL", "null")
+		env.Set("EMPTY", "")
 		env.Set("CLASH_COMMAND", "command")
 		env.Set("CLASH_LABEL", "label")
 		env.Set("CLASH_KEY", "key")
